@@ -222,6 +222,7 @@ func runC02(c *core.Case) {
 		oldImg := d.M
 		res := conn.RunRollbackTx(spec)
 		c.Count("programs", 1)
+		c.Count("stale_journal_headers_zapped", res.StaleHdrZaps)
 		detail := map[string]any{"page_size": ps, "sector": sector, "mode": mode, "split": d.Split, "step": i, "spec": spec, "history": programs}
 		programs = append(programs, spec)
 		ctx := fmt.Sprintf("step %d %s %s ps=%d %d->%d pages", i, sh, spec.Outcome, ps, cur, spec.NewPageN)
